@@ -29,6 +29,7 @@ type c10Sys struct {
 	depth int
 	maxD  int
 	seq   int
+	cache *c10Snap // snapshot after the last operation (reads leave it valid)
 }
 
 var c10Buckets = []string{"aaa", "bbb"}
@@ -170,7 +171,15 @@ func (sn c10Snap) canonical() string {
 	return sb.String()
 }
 
-func (s *c10Sys) Key() string { return drv.KeyOf(s.snap().canonical()) }
+func (s *c10Sys) cur() c10Snap {
+	if s.cache == nil {
+		sn := s.snap()
+		s.cache = &sn
+	}
+	return *s.cache
+}
+
+func (s *c10Sys) Key() string { return drv.KeyOf(s.cur().canonical()) }
 
 func (s *c10Sys) canon(k string) string {
 	k = strings.TrimRight(k, "/") // routing trims trailing slashes (C16)
@@ -204,7 +213,7 @@ func (s *c10Sys) Apply(op engine.Op) (string, *engine.Violation) {
 	o := op.(c10Op)
 	s.depth++
 	s.seq++
-	pre := s.snap()
+	pre := s.cur()
 	kind := backendClass(s.w.Cfg.Kind)
 	body := []byte(fmt.Sprintf("hostile-%d", s.seq))
 	var r drv.Resp
@@ -237,6 +246,7 @@ func (s *c10Sys) Apply(op engine.Op) (string, *engine.Violation) {
 		r = s.w.Do(drv.Req{Method: "DELETE", Path: "/" + o.bucket})
 	}
 	post := s.snap()
+	s.cache = &post
 	obs := respSig(r)
 	bad := func(field, format string, a ...interface{}) (string, *engine.Violation) {
 		return obs, viol(sig("C10", kind, o.kind, "bucket="+bucketClass(o.bucket), "key="+keyClass(o.key), field), "%s answered %s: %s", o.String(), r.Short(), fmt.Sprintf(format, a...))
